@@ -415,7 +415,7 @@ pub fn normalise(spec: &mut RecorderSpec) {
     if pre22 && spec.ports.is_empty() {
         spec.frames.clear();
     }
-    if !L::gte(v, (3, 3)) {
+    if !L::gte(v, (3, 3)) && !(spec.force_gecko && L::gte(v, (3, 0))) {
         spec.gecko = None;
     }
     if let Some(g) = &mut spec.gecko {
@@ -628,7 +628,8 @@ pub fn build(spec: &RecorderSpec) -> Model {
         }
         let mut rng = Rng::new(u.pseed);
         for &k in &u.after {
-            let k = (k as usize).min(n_before_end - 1);
+            // positions >= 1_000_000 mean "after the last Game End, still inside the raw element"
+            let k = if k >= 1_000_000 { usize::MAX } else { (k as usize).min(n_before_end - 1) };
             let mut ev = vec![0u8; 1 + u.size as usize];
             rng.fill(&mut ev[1..]);
             ev[0] = u.code;
@@ -649,6 +650,7 @@ pub fn build(spec: &RecorderSpec) -> Model {
         bytes.push(*c);
         bytes.extend_from_slice(&s.to_be_bytes());
     }
+    let n_base = base.len();
     for (k, p) in base.into_iter().enumerate() {
         events.push(Ev { code: p.bytes[0], off: bytes.len(), len: p.bytes.len(), occ: p.occ, what: p.what });
         bytes.extend_from_slice(&p.bytes);
@@ -656,6 +658,14 @@ pub fn build(spec: &RecorderSpec) -> Model {
             for u in list {
                 events.push(Ev { code: u[0], off: bytes.len(), len: u.len(), occ: None, what: What::Unknown });
                 bytes.extend_from_slice(u);
+            }
+        }
+        if k + 1 == n_base && end.is_some() {
+            if let Some(list) = inserts.get(&usize::MAX) {
+                for u in list {
+                    events.push(Ev { code: u[0], off: bytes.len(), len: u.len(), occ: None, what: What::Unknown });
+                    bytes.extend_from_slice(u);
+                }
             }
         }
     }
@@ -671,7 +681,9 @@ pub fn build(spec: &RecorderSpec) -> Model {
     }
     let raw_end = bytes.len();
     let raw_len = raw_end - HEADER_LEN;
-    bytes[11..15].copy_from_slice(&(raw_len as u32).to_be_bytes());
+    if !spec.raw_len_zero {
+        bytes[11..15].copy_from_slice(&(raw_len as u32).to_be_bytes());
+    }
     if let Some(t) = &spec.metadata {
         bytes.extend_from_slice(&META_KEY);
         encode_tree(&mut bytes, t);
